@@ -6,6 +6,7 @@ from .. import astq
 from .. import sym as S
 from ..cfg import CFG, walk_no_defs, header_walk
 from ..dataflow import ReachingDefs, containing_node
+from ..report import MISSING
 from ..model import AnalysisError, ClassInfo, FunctionInfo, unparse
 from . import cli_common as cc
 
@@ -415,7 +416,7 @@ def exclusions(ctx):
                     if pred(names, attrs_):
                         ok = True
                         seen.add(rname)
-            ctx.check(ok and isinstance(n, ast.Continue), R, f, guards[0] if guards else n,
+            ctx.check(ok and isinstance(n, ast.Continue), R, f, guards[0] if guards else MISSING(n),
                       "an utterance is skipped only for a documented reason (min-duration, sampling rate, channel)",
                       "the per-utterance loop can drop an utterance (%s) under a condition that is none of: "
                       "min-duration, sampling-rate mismatch, channel out of range -- guard: %s"
@@ -441,7 +442,7 @@ def exclusions(ctx):
     ln = prog.own_method(ds, "__len__")
     rets = astq.returns_of(ln)
     ok = len(rets) == 1 and astq.text(rets[0].value) in ("len(self.utt_path)",)
-    ctx.check(ok, R, ln, rets[0] if rets else ln.node, "the dataset yields every remaining utterance (len == number of work items)",
+    ctx.check(ok, R, ln, rets[0] if rets else MISSING(ln.node), "the dataset yields every remaining utterance (len == number of work items)",
               "__len__ is not len(self.utt_path); some utterances would never be produced")
     tool = prog.func("command_line.signals_to_torch_feat_dir")
     loop2 = cc.find_loop_over(tool, lambda n: astq.is_name(n.iter, "loader"))[0]
@@ -455,7 +456,7 @@ def exclusions(ctx):
             guards = [a for a in astq.ancestors(astq.parents(tool), n) if isinstance(a, ast.If)]
             t = astq.text(guards[0].test) if guards else ""
             ok = bool(guards) and t in ("not line", "line == ''", "not len(line)")
-            ctx.check(ok, R, tool, guards[0] if guards else n, "map lines are skipped only when blank",
+            ctx.check(ok, R, tool, guards[0] if guards else MISSING(n), "map lines are skipped only when blank",
                       "a map line (utterance) is skipped under `%s`" % t)
 
 
@@ -490,11 +491,11 @@ def config_syntax(ctx):
             hs = [prog.dotted(h.type) for h in t.handlers if h.type is not None]
             falls_back = all(all(isinstance(s, ast.Pass) for s in h.body) for h in t.handlers)
             ok_open = bool(hs) and set(hs) <= {"IOError", "OSError", "FileNotFoundError"} and falls_back
-    ctx.check(ok_open, R, ct, tries[0] if tries else ct.node,
+    ctx.check(ok_open, R, ct, tries[0] if tries else MISSING(ct.node),
               "the argument is tried as a file path and otherwise used as the inline string",
               "_config_type no longer falls back to the inline string when the argument is not a readable path")
     loads = [c for c in astq.func_calls(ct) if astq.is_name(c.func, "_load_config")]
-    ctx.check(len(loads) == 1 and len(loads[0].args) == 1 and astq.is_name(loads[0].args[0], p), R, ct, loads[0] if loads else ct.node,
+    ctx.check(len(loads) == 1 and len(loads[0].args) == 1 and astq.is_name(loads[0].args[0], p), R, ct, loads[0] if loads else MISSING(ct.node),
               "file contents and inline strings go through the single _load_config",
               "_config_type does not parse with the single _load_config(<string>)")
     # both definitions of _load_config parse a superset of JSON
@@ -532,14 +533,14 @@ def seed(ctx):
     ctx.need(len(seeds) >= 1, R, "np.random.seed call not found in the kaldi tool")
     s = seeds[0]
     ctx.check(len(s.args) == 1 and astq.text(s.args[0]) == "options.seed", R, f, s, "NumPy's generator is seeded with --seed",
-              "np.random.seed is called with %s, not options.seed" % astq.text(s.args[0] if s.args else s))
+              "np.random.seed is called with %s, not options.seed" % astq.text(s.args[0] if s.args else MISSING(s)))
     loop = cc.find_loop_over(f, lambda n: any(isinstance(x, ast.Name) and x.id == "wav_reader" for x in ast.walk(n.iter)))[0]
     ns = containing_node(cfg, f, s)
     nl = cfg.node(loop)
     pm = astq.parents(f)
     guard = [a for a in astq.ancestors(pm, s) if isinstance(a, ast.If)]
     ok = len(guard) == 1 and astq.text(guard[0].test) in ("options.seed is not None",) and _in(guard[0].body, s)
-    ctx.check(ok, R, f, guard[0] if guard else s, "seeding happens exactly when a seed is given",
+    ctx.check(ok, R, f, guard[0] if guard else MISSING(s), "seeding happens exactly when a seed is given",
               "np.random.seed is not guarded by `options.seed is not None`")
     if ok:
         ng = cfg.node(guard[0])
@@ -611,7 +612,7 @@ def torch_twins(ctx):
                       "no isinstance(%s, %s) conversion branch: a %s configuration cannot be used" % (var, c.name, c.name))
         # each branch converts with a from_* classmethod of a torch module, else NotImplementedError
         for q, n in handled.items():
-            st = n.body[0] if n.body else None
+            st = n.body[0] if n.body else MISSING(None)
             v = st.value if isinstance(st, ast.Assign) else None
             ok = isinstance(v, ast.Call) and isinstance(v.func, ast.Attribute) and v.func.attr.startswith("from_") and \
                 len(v.args) == 1 and astq.is_name(v.args[0], var)
@@ -655,7 +656,7 @@ def torch_twins(ctx):
         rets = astq.returns_of(m)
         ok = len(rets) == 1 and isinstance(rets[0].value, ast.Call) and astq.is_name(rets[0].value.func, m.params[0]) and \
             len(rets[0].value.args) == 1 and astq.text(rets[0].value.args[0]) == "%s.%s" % (m.params[1], attr)
-        ctx.check(ok, R, m, rets[0] if rets else m.node, "%s.%s copies the NumPy object's %s" % (cls, meth, attr),
+        ctx.check(ok, R, m, rets[0] if rets else MISSING(m.node), "%s.%s copies the NumPy object's %s" % (cls, meth, attr),
                   "%s.%s does not construct cls(<obj>.%s)" % (cls, meth, attr))
 
 
